@@ -63,7 +63,8 @@ def run_script(exe, cmds, env_extra=None):
                 break
             elapsed = out[i][0] - t0
         try:
-            p.stdin.write('isready\n'); p.stdin.flush()
+            if c.strip() != 'isready':       # a scripted `isready` is its own synchronisation point (one readyok per isready)
+                p.stdin.write('isready\n'); p.stdin.flush()
         except Exception as e:
             dead = f'engine process gone after `{c}`: {e}'
             break
@@ -305,6 +306,12 @@ def judge_walk(ctx, exe, drv, fen, moves, rng, use_startpos=False, initial=False
             cmds.append(f'go depth {rng.choice([1, 2])}')
             checks.append((len(cmds) - 1, 'go', o))
             continue
+        # what a GUI sends in between without meaning to change anything: options the engine does not have (or has), `isready`, `uci`,
+        # `ponderhit`, a stray `stop`, an unknown command — none of them may change the position or block a later answer
+        if rng.random() < 0.35:
+            cmds.append(rng.choice(['setoption name Hash value 64', 'setoption name Threads value 1', 'setoption name Ponder value false', 'setoption name NoSuchOption',
+                                    'setoption name Polyglot Sample value best', 'setoption name Polyglot Sample value random', 'isready', 'uci', 'ponderhit', 'stop',
+                                    'xyzzy 1 2 3', 'setoption', 'setoption name']))
         cmds.append('printboard'); checks.append((len(cmds) - 1, 'fen', o))
         if rng.random() < 0.5:
             cmds.append('hash'); checks.append((len(cmds) - 1, 'hash', o))
